@@ -660,7 +660,7 @@ static LinkedList *bufr_repl_descriptors
          int len;
 
          bsq = bufr_create_sequence( lst );
-         len = bufr_estimate_seq_length( bsq, tbls );
+         len = bufr_minimum_seq_length( bsq );
          len = len * count / 8;
          bsq->list = NULL;
          bufr_free_sequence( bsq );
@@ -2137,6 +2137,76 @@ ListNode *bufr_getnode_sequence ( BUFR_Sequence *cl, int pos )
       }
    else
       return lst_nodepos( cl->list , pos );
+   }
+
+/**
+ * @english
+ * lower bound, in bits, of what a sequence takes in the data section whatever Table C operators
+ * are in force (an operator met later may still narrow an element: a numeric element keeps at
+ * least 1 bit, a character element at least 8). Descriptors flagged as skipped, and those 
+ * governed by a delayed replication whose factor is zero or not read yet, take nothing.
+ * It is used to refuse replication factors that a message of the given size cannot possibly hold.
+ * @endenglish
+ * @francais
+ * borne inferieure de la longueur de la sequence en bits
+ * @endfrancais
+ * @ingroup internal
+ */
+int bufr_minimum_seq_length( BUFR_Sequence *seq )
+   {
+   ListNode       *node;
+   BufrDescriptor *cb;
+   int             nbits=0;
+   int             f, x, y;
+   int             dly_next=0, dly_x=0, dly_desc=0, dly_cnt=0;
+
+   node = lst_firstnode( seq->list );
+   while ( node )
+      {
+      cb = (BufrDescriptor *)node->data;
+      node = node->next;
+      f = DESC_TO_F( cb->descriptor );
+      x = DESC_TO_X( cb->descriptor );
+      y = DESC_TO_Y( cb->descriptor );
+      if (dly_desc > 0)
+         {
+         dly_desc -= 1;
+         if (dly_cnt <= 0) continue;
+         }
+      if (cb->flags & FLAG_SKIPPED) continue;
+      if (dly_next && (f == 0)&&(x == 31))
+         {
+         dly_next = 0;
+         dly_cnt = bufr_value_get_int32( cb->value );
+         dly_desc = dly_x;
+         }
+      else if ((f == 1)&&(y == 0))
+         {
+         dly_next = 1;
+         dly_x = x;
+         }
+      if ((f != 0)||(cb->encoding.nbits <= 0)) continue;
+      switch (cb->encoding.type)
+         {
+         case TYPE_CODETABLE :
+         case TYPE_FLAGTABLE :
+            nbits += cb->encoding.nbits;
+            break;
+         case TYPE_CCITT_IA5 :
+            nbits += (x == 31) ? cb->encoding.nbits : 8;
+            break;
+         case TYPE_NUMERIC :
+            nbits += (x == 31) ? cb->encoding.nbits : 1;
+            break;
+         case TYPE_CHNG_REF_VAL_OP :
+         case TYPE_IEEE_FP :
+            nbits += 1;
+            break;
+         default :
+            break;
+         }
+      }
+   return nbits;
    }
 
 /**
